@@ -297,8 +297,20 @@ def run(ctx):
     index_checks(ctx)
     primitive_checks(ctx)
 
-    # positive controls
+    # ---------------------------------------------------------------- R7 the scopes that generated code builds (shared with C04.R2)
     from ..core import Ctx
+    from . import C04
+    sub = Ctx("C04", ctx.tier, ctx.root, model=ctx.model)
+    sub._summ = summariser(ctx)
+    C04.run(sub)
+    for e in sub.errors:
+        ctx.error("shared C04 rules: " + e)
+    for o in sub.obligations:
+        if o.rule == "C04.R2":
+            ctx.ob("C07.R7", o.where, o.ok, o.what, key=o.key, loc=o.loc, detail=o.detail)
+    ctx.floor("C07.R7", 80)
+
+    # positive controls
     ctl = control_model(
         "class Container(dict):\n    pass\n"
         "class Construct(object):\n    pass\n"
